@@ -57,7 +57,7 @@ static int verify(Obj& o, Model& m, Learned& L, Report& rep, const char* why, Sn
       if (m.bitrate != OPUS_AUTO && m.bitrate != OPUS_BITRATE_MAX && !m.ms_bitrate_is_status && v != m.bitrate)
         return rep.fail(sigf("c11:%s:%s:GET_BITRATE", why, C).c_str(), "%s (%d channels): GET_BITRATE reports %d after SET_BITRATE stored %d", KIND_NAME[m.kind], m.channels, v, m.bitrate);
       snap.add("BITRATE", v, false);
-      if (!rep.exclude("F13")) EXPECTV("MAX_BANDWIDTH", OPUS_GET_MAX_BANDWIDTH_REQUEST, m.max_bw);
+      if (!rep.exclude("F16")) EXPECTV("MAX_BANDWIDTH", OPUS_GET_MAX_BANDWIDTH_REQUEST, m.max_bw);
     }
     EXPECTV("VBR", OPUS_GET_VBR_REQUEST, m.vbr);
     STATUSV("BANDWIDTH", OPUS_GET_BANDWIDTH_REQUEST, in(v, OPUS_BANDWIDTH_NARROWBAND, OPUS_BANDWIDTH_FULLBAND));
@@ -120,7 +120,7 @@ static int verify(Obj& o, Model& m, Learned& L, Report& rep, const char* why, Sn
     STATUSV("LAST_PACKET_DURATION", OPUS_GET_LAST_PACKET_DURATION_REQUEST, v >= 0 && v <= m.Fs * 120 / 1000);
     if (m.kind == K_DEC) {
       EXPECTV("COMPLEXITY", OPUS_GET_COMPLEXITY_REQUEST, m.complexity);
-      STATUSV("PITCH", OPUS_GET_PITCH_REQUEST, v >= 0 && v <= m.Fs / 50);
+      STATUSV("PITCH", OPUS_GET_PITCH_REQUEST, v >= 0 && v <= 1024);   // period in 48 kHz samples, 0 = none
     }
     { opus_uint32 fr = 0; r = o.getp(OPUS_GET_FINAL_RANGE_REQUEST, &fr); rep.count();
       if (r != OPUS_OK) return rep.fail(sigf("c11:getter-status:%s:GET_FINAL_RANGE", C).c_str(), "GET_FINAL_RANGE returned %d", r);
